@@ -12,7 +12,8 @@ from oracles import civil
 
 LEAN_MODULES = ["FeedVerif.Props.C02", "FeedVerif.Model.JsonDriver", "FeedVerif.Model.MixinDriver"]
 CORR_OBLIGATIONS = ["M-json ~ JSONParser on generated JSON feeds of arbitrary shape (fields present / absent / of the documented types): feed data, entries, version, raised-or-not",
-                    "M-mixin (stage 1) ~ the real machine on the ROOT events of the six XML serialisations (version detection)"]
+                    "M-mixin (stage 1) ~ the real machine on the ROOT events of the six XML serialisations (version detection) and on the date elements of every format, feed and entry "
+                    "context, both back ends (the real _parse_date's answer is passed to the model as a parameter)"]
 TRUSTED = ["Lean model FeedVerif/Model/Json.lean of parsers/json.py (complete: feed, parse_entry, parse_author, parse_attachment); json.load, _parse_date and sanitize_html are parameters",
            "tools/feedgen.py serialisers and the civil-date oracle (independent of feedparser)",
            "the per-field XML normalisation (title / link / id / summary / author / dates / categories / enclosures through the dedicated handlers) is decided by the eight-format differential "
@@ -213,6 +214,21 @@ def correspondence(ctx):
             m = re.search(r"<(rss|feed|rdf:RDF)[^>]*>", d)
             root = m.group(0)
             docs.append((root + "</" + m.group(1) + ">").encode("utf-8"))
+    # the date elements of each format in feed and entry context (stage 1.5 of M-mixin: handlers recognised from their source)
+    for _ in range(ctx.n(40, 400)):
+        t1, t2 = (feedgen.rand_instant(rng), rng.choice(OFFSETS)), (feedgen.rand_instant(rng), rng.choice(OFFSETS))
+        k = rng.random()
+        if k < 0.4:
+            d = '<rss version="2.0"><channel><lastBuildDate>%s</lastBuildDate><item><pubDate>%s</pubDate><expirationDate>%s</expirationDate></item></channel></rss>' % (
+                feedgen.d822(t1), rng.choice([feedgen.d822(t2), " " + feedgen.d822(t2) + "\n", "garbage", ""]), feedgen.d3339(t1))
+        elif k < 0.8:
+            d = '<feed xmlns="http://www.w3.org/2005/Atom"><updated>%s</updated><entry><published>%s</published><updated>%s</updated><%s>%s</%s></entry></feed>' % (
+                feedgen.d3339(t1), feedgen.d3339(t2), feedgen.d3339(t1), *(lambda n: (n, feedgen.d3339(t2), n))(rng.choice(["issued", "modified", "created"])))
+        else:
+            d = ('<rdf:RDF xmlns:rdf="http://www.w3.org/1999/02/22-rdf-syntax-ns#" xmlns="http://purl.org/rss/1.0/" xmlns:%s="http://purl.org/dc/elements/1.1/" xmlns:dcterms="http://purl.org/dc/terms/">'
+                 '<item><%s:date>%s</%s:date><dcterms:%s>%s</dcterms:%s></item></rdf:RDF>') % (
+                *(lambda p: (p, p, feedgen.d3339(t1), p))(rng.choice(["dc", "d", "DC"])), *(lambda n: (n, feedgen.d3339(t2), n))(rng.choice(["created", "issued", "modified"])))
+        docs.append(d.encode("utf-8"))
     r2 = mixlib.corr(ctx, docs, {"content-type": "application/xml; charset=utf-8"}, loose_p=0.3)
     res["cases"] += r2["cases"]
     res["distinct"] += r2["distinct"]
@@ -233,7 +249,9 @@ def replay(w):
 TECHNIQUE = "Lean 4 proof: complete model of the JSON Feed parser with a normalisation theorem for every abstract feed, version-detection theorems for the six XML formats on the handler machine model + correspondence of both models + eight-format differential search against the generating abstract feed"
 LEVEL_TEXT = ("Kernel-checked: on M-json normalised_json (for EVERY abstract feed the JSON serialisation parses to exactly the normalised view: title, link, description, per entry "
               "title / link / id / summary / author name / published / updated / tag terms / enclosures; by induction over the entry list) and json_version; on M-mixin (stage 1) "
-              "version_rss / version_atom10 / version_atom03 / version_rss10 (the root events of each XML serialisation set the version that names the format). Tie: both models follow the "
-              "implementation on generated inputs.")
+              "version_rss / version_atom10 / version_atom03 / version_rss10 (the root events of each XML serialisation set the version that names the format) and date_element_parsed "
+              "(for every element whose handlers the translator recognises FROM THEIR SOURCE as a simple date element -- pubDate, published, issued, updated, modified, lastBuildDate, "
+              "created, expirationDate, dc:date, dcterms:* -- and every text: the entry's K_parsed is _parse_date(repair(strip(text)))). Tie: both models follow the implementation on "
+              "generated inputs; the date-element table is regenerated from the handlers' source on every run.")
 LEVEL_NOTE = ("Trusted: Lean kernel + standard axioms; json.load, _parse_date, sanitize_html as parameters of M-json; the XML per-field normalisation through the dedicated handlers is "
               "covered by the differential search over all eight formats, not by a theorem. Open finding: JSON Feed entry.content is a dict, not a list.")
